@@ -1035,8 +1035,8 @@ def oracle_history(ctx: Ctx, sc: dict, tr: dict, full: bool = False) -> dict:
             dcalls = [c for c in calls_by_inc.get(i["inc"], []) if c["kind"] == "daemon"]
             for (a0, a1) in act:
                 tchk = a0 + need_r
-                if a1 - a0 < need_r or tchk >= H.t_end:
-                    continue
+                if a1 - a0 <= need_r or tchk >= H.t_end:
+                    continue            # (strictly longer: at a1 itself the next pause is already ending the daemon)
                 for name, hh in kh.items():
                     if not hh or hh[0]["t"] > a0 or any(h.get("event") == "DELETED" for h in hh):
                         continue
